@@ -18,6 +18,7 @@ pub mod c31;
 pub mod c32;
 pub mod c33;
 pub mod c34;
+pub mod c35;
 pub mod c36;
 
 pub fn registry() -> &'static [Check] {
@@ -41,6 +42,7 @@ pub fn registry() -> &'static [Check] {
         Check { meta: &c32::META, run: c32::run, shards: (16, 16) },
         Check { meta: &c33::META, run: c33::run, shards: (16, 16) },
         Check { meta: &c34::META, run: c34::run, shards: (16, 16) },
+        Check { meta: &c35::META, run: c35::run, shards: (16, 16) },
         Check { meta: &c36::META, run: c36::run, shards: (8, 16) },
     ];
     R
